@@ -41,7 +41,7 @@ func newLintCommand(cu utils.CmdUtils, lint lintCmd) *cli.Command {
 				return cu.WithFileReaders([]string{c.Args().First()}, func(streams []io.Reader) error {
 					streamToLint := streams[0]
 					return lint(streamToLint, LintConfig{
-						Silent:         c.IsSet("silent"),
+						Silent:         c.Bool("silent"),
 						ParserConfig:   o.ParserConfig,
 						ReporterConfig: o.ReporterConfig,
 					})
